@@ -167,7 +167,7 @@ def build(ctx, res):
     f = v.item("fn", "mask_top_word")
     f.sub(r"if ([^\n{}]*?)\s*&& let Some\(last\) = words\.last_mut\(\)\s*\{", r"if \1 { if let Some(last) = words.last_mut() {", count=1,
           rule="O10 let-chain split `if C && let P = E { S }` -> `if C { if let P = E { S } }` (Verus runs edition 2021)")
-    f.sub(r"(\*last &= [^;\n]*;)\s*\}\s*\}\s*$", r"\1\n    } }\n}", count=1, rule="O10 let-chain split (closing brace)")
+    f.sub(r"(\*last &= [^;\n]*;)\s*\}", r"\1\n    } }", count=1, rule="O10 let-chain split (closing brace)")
     f.spec("""    ensures
         final(words)@.len() == old(words)@.len(),
         // nothing but the top word is touched
